@@ -133,8 +133,8 @@ impl Check for C14 {
             real: &["h3 client and server (all of h3/src)", "http, bytes, tokio::sync::mpsc"],
             stub: &["QUIC transport (SimQuic, both ends)", "executor (simexec)", "applications (generated call programs)"],
             assumptions: &["futures are awaited to completion (a cancelled send is outside the documented pattern), except the server's accept() which is cancelled for shutdown(n) as in the documented select pattern", "push is not implemented by h3: a push stream or PUSH_PROMISE on the wire is reported"],
-            quick_runs: 100_000,
-            thorough_runs: 5_000_000,
+            quick_runs: 300_000,
+            thorough_runs: 12_000_000,
         }
     }
     fn run(&self, ctx: &RunCtx) -> RunOut {
